@@ -1303,6 +1303,12 @@ func (pc *PartitionContext) UpdateAllocation(alloc *objects.Allocation) (request
 			zap.String("appID", applicationID),
 			zap.String("allocationKey", allocationKey))
 
+		// the RM placed the ask itself: a reservation the scheduler holds for it is no longer needed
+		if reservedNodeID := app.NodeReservedForAsk(allocationKey); reservedNodeID != "" {
+			if reservedNode := pc.GetNode(reservedNodeID); reservedNode != nil {
+				pc.unReserve(app, reservedNode, existing)
+			}
+		}
 		existing.SetNodeID(nodeID)
 		existing.SetBindTime(alloc.GetBindTime())
 		if _, err := app.AllocateAsk(allocationKey); err != nil {
